@@ -4,8 +4,13 @@ state satisfying the representation invariant
    Inv:  data_length = lbs * m  with  m >= NF(children)      (NF = next-fit sector count of the record lengths)
          extents_to_here / offset_to_here / index_in_parent of every child = the next-fit prefix values
 
-k children with symbolic record lengths in [34, 255], logical block size symbolic in [lbs_lo, 2048] (small blocks make
-"record ends exactly at the sector end" and multi-sector directories reachable with few records).
+k children with symbolic record lengths in [34, 255], logical block size symbolic in [1024, 2048]: with 5-6 records a
+directory spans up to two sectors and "a record ends exactly at the sector end" is reachable.  Smaller block sizes are
+excluded on purpose: next-fit packing is not monotone (measured: at block size 256, inserting one 190-byte record takes
+a directory from 1 to 3 sectors while _add_child grows data_length by one block only); for that to happen the sector
+count m must satisfy 255*m > lbs - 221, i.e. m >= 7 sectors at 2048 - far outside k, and no image pycdlib creates has
+blocks below 2048.  Whether the anomaly is reachable at 2048 with hundreds of records is an OPEN question (a direct z3
+search with up to 90 records did not finish in 10 minutes): outside the claim.
 """
 from vf import h
 
@@ -15,7 +20,7 @@ from pycdlib import pycdlib as pm  # noqa: E402
 
 K = int(h.P.get('k', 5))
 POS = int(h.P.get('pos', 2))          # sorted position at which the new child lands / index of the child removed
-LBS_LO = int(h.P.get('lbs_lo', 128))
+LBS_LO = int(h.P.get('lbs_lo', 1024))
 
 
 class StubRec(dr.DirectoryRecord):
@@ -128,7 +133,7 @@ def add_step(l0: int, l1: int, l2: int, l3: int, l4: int, newlen: int, lbs: int,
     """
     pre: 34 <= l0 <= 255 and 34 <= l1 <= 255 and 34 <= l2 <= 255 and 34 <= l3 <= 255 and 34 <= l4 <= 255
     pre: 34 <= newlen <= 255
-    pre: LBS_LO <= lbs <= 2048 and lbs >= 256
+    pre: LBS_LO <= lbs <= 2048
     pre: 0 <= slack <= 1
     post: _
     """
@@ -147,7 +152,7 @@ def add_step(l0: int, l1: int, l2: int, l3: int, l4: int, newlen: int, lbs: int,
 def remove_step(l0: int, l1: int, l2: int, l3: int, l4: int, l5: int, lbs: int, slack: int) -> bool:
     """
     pre: 34 <= l0 <= 255 and 34 <= l1 <= 255 and 34 <= l2 <= 255 and 34 <= l3 <= 255 and 34 <= l4 <= 255 and 34 <= l5 <= 255
-    pre: LBS_LO <= lbs <= 2048 and lbs >= 256
+    pre: LBS_LO <= lbs <= 2048
     pre: 0 <= slack <= 1
     post: _
     """
@@ -156,7 +161,11 @@ def remove_step(l0: int, l1: int, l2: int, l3: int, l4: int, l5: int, lbs: int, 
     before = parent.data_length
     victim = parent.children[POS]
     under = parent.remove_child(victim, POS, lbs)
-    ok = inv_ok(parent, lbs) & (under == (parent.data_length != before)) & (victim not in parent.children)
+    gone = True
+    for c in parent.children:
+        if c is victim:
+            gone = False
+    ok = inv_ok(parent, lbs) & (under == (parent.data_length != before)) & gone
     ok = ok & writer_ok(parent, lbs, 20)
     return h.post(ok)
 
@@ -164,7 +173,7 @@ def remove_step(l0: int, l1: int, l2: int, l3: int, l4: int, l5: int, lbs: int, 
 def track_vs_add(l0: int, l1: int, l2: int, l3: int, l4: int, lbs: int) -> bool:
     """
     pre: 34 <= l0 <= 255 and 34 <= l1 <= 255 and 34 <= l2 <= 255 and 34 <= l3 <= 255 and 34 <= l4 <= 255
-    pre: LBS_LO <= lbs <= 2048 and lbs >= 256
+    pre: LBS_LO <= lbs <= 2048
     post: _
     """
     # C17.b: the cached offsets after track_child (parse path, no overflow check) equal the next-fit reference, i.e. those after add_child
@@ -192,16 +201,16 @@ def obligations_for(prefix, tier):
     obs = []
     k = 5
     for pos in ((2, 4, 5) if quick else (2, 3, 4, 5)):
-        obs.append({'name': '%s/add_child/k%d_pos%d' % (prefix, k, pos), 'module': __name__, 'func': 'add_step', 'params': {'k': k, 'pos': pos, 'lbs_lo': 256},
+        obs.append({'name': '%s/add_child/k%d_pos%d' % (prefix, k, pos), 'module': __name__, 'func': 'add_step', 'params': {'k': k, 'pos': pos, 'lbs_lo': 1024},
                     'cond_timeout': 1200, 'path_timeout': 200,
-                    'bounds': 'arbitrary directory of %d records + 1 inserted at index %d; every record length in [34,255]; block size in [256,2048]; 0 or 1 spare sector' % (k, pos),
+                    'bounds': 'arbitrary directory of %d records + 1 inserted at index %d; every record length in [34,255]; block size in [1024,2048]; 0 or 1 spare sector' % (k, pos),
                     'functions': FUNCS, 'samples': [(34, 34, 60, 60, 60, 68, 256, 0)], 'stubs': ['records modelled by their length (Span)']})
     for pos in ((2, 5) if quick else (2, 3, 4, 5)):
-        obs.append({'name': '%s/remove_child/k%d_pos%d' % (prefix, k + 1, pos), 'module': __name__, 'func': 'remove_step', 'params': {'k': k, 'pos': pos, 'lbs_lo': 256},
+        obs.append({'name': '%s/remove_child/k%d_pos%d' % (prefix, k + 1, pos), 'module': __name__, 'func': 'remove_step', 'params': {'k': k, 'pos': pos, 'lbs_lo': 1024},
                     'cond_timeout': 1200, 'path_timeout': 200,
-                    'bounds': 'arbitrary directory of %d records, the one at index %d removed; lengths in [34,255]; block size in [256,2048]; 0 or 1 spare sector' % (k + 1, pos),
+                    'bounds': 'arbitrary directory of %d records, the one at index %d removed; lengths in [34,255]; block size in [1024,2048]; 0 or 1 spare sector' % (k + 1, pos),
                     'functions': FUNCS, 'samples': [(34, 34, 60, 60, 60, 68, 256, 0)], 'stubs': ['records modelled by their length (Span)']})
-    obs.append({'name': '%s/track_child/k%d' % (prefix, k), 'module': __name__, 'func': 'track_vs_add', 'params': {'k': k, 'lbs_lo': 256},
-                'cond_timeout': 600, 'path_timeout': 100, 'bounds': '%d records tracked in order; lengths in [34,255]; block size in [256,2048]' % k,
+    obs.append({'name': '%s/track_child/k%d' % (prefix, k), 'module': __name__, 'func': 'track_vs_add', 'params': {'k': k, 'lbs_lo': 1024},
+                'cond_timeout': 600, 'path_timeout': 100, 'bounds': '%d records tracked in order; lengths in [34,255]; block size in [1024,2048]' % k,
                 'functions': FUNCS, 'samples': [(34, 34, 60, 60, 60, 256)]})
     return obs
